@@ -20,6 +20,9 @@ import (
 
 var c11Uniq int64
 
+// c11Cold is true until the first batch of this worker process has run.
+var c11Cold = true
+
 type c11Job struct {
 	cfg   Cfg
 	progs []string
@@ -123,89 +126,111 @@ func c11Case(w *fw.W, idx int, r *fw.Rand) {
 			jobs[g].progs = append(jobs[g].progs, c11Program(r))
 		}
 	}
-	// isolated baselines (seeded VMs only: an unseeded VM has no defined value, but it must
-	// still be race- and crash-free, and its error texts must be in its own language)
-	for g := range jobs {
-		vm := jobs[g].cfg.NewVM()
-		for _, p := range jobs[g].progs {
-			jobs[g].want = append(jobs[g].want, c11RunOne(vm, p))
-		}
+	// A cold process (first batch of a worker) runs the concurrent phase BEFORE any baseline, so
+	// that whatever the library initialises lazily on first use is first used concurrently;
+	// the baselines are taken afterwards (they do not depend on the order for seeded VMs).
+	cold := c11Cold
+	c11Cold = false
+	type diff struct {
+		g, i int
+		got  string
 	}
-	// "as when run alone" must not depend on which other VMs ran earlier in the process either:
-	// the baselines are taken a second time in reverse VM order and must be identical. The
-	// second pass pads DefaultDiceSideExpr with a process-unique number of trailing blanks —
-	// an expression that means the same but shares no text with any other VM's — so that any
-	// process-wide state keyed by configuration text cannot serve it either.
-	for g := len(jobs) - 1; g >= 0; g-- {
-		if jobs[g].cfg.Seed == 0 {
-			continue
+	var diffs []diff
+	gots := make([][]string, G)
+	runBaselines := func() {
+		// isolated baselines (seeded VMs only: an unseeded VM has no defined value, but it must
+		// still be race- and crash-free, and its error texts must be in its own language)
+		for g := range jobs {
+			vm := jobs[g].cfg.NewVM()
+			for _, p := range jobs[g].progs {
+				jobs[g].want = append(jobs[g].want, c11RunOne(vm, p))
+			}
 		}
-		c2 := jobs[g].cfg
-		if c2.DefSide != "" {
-			c2.DefSide += strings.Repeat(" ", int(atomic.AddInt64(&c11Uniq, 1)))
-		}
-		vm := c2.NewVM()
-		for i, p := range jobs[g].progs {
-			if got := c11RunOne(vm, p); got != jobs[g].want[i] {
-				w.Violate(idx, "isolation", "isolation|depends-on-earlier-vms", fmt.Sprintf("cfg=%s program#%d=%q (history %q)", jobs[g].cfg, i, p, jobs[g].progs[:i]), fmt.Sprintf("the same seeded VM run sequentially gives\n%s\nafter other VMs ran, but\n%s\nwhen it ran before them", trunc(got, 600), trunc(jobs[g].want[i], 600)), nil)
-				break
+		// "as when run alone" must not depend on which other VMs ran earlier in the process either:
+		// the baselines are taken a second time in reverse VM order and must be identical. The
+		// second pass pads DefaultDiceSideExpr with a process-unique number of trailing blanks —
+		// an expression that means the same but shares no text with any other VM's — so that any
+		// process-wide state keyed by configuration text cannot serve it either.
+		for g := len(jobs) - 1; g >= 0; g-- {
+			if jobs[g].cfg.Seed == 0 {
+				continue
+			}
+			c2 := jobs[g].cfg
+			if c2.DefSide != "" {
+				c2.DefSide += strings.Repeat(" ", int(atomic.AddInt64(&c11Uniq, 1)))
+			}
+			vm := c2.NewVM()
+			for i, p := range jobs[g].progs {
+				if got := c11RunOne(vm, p); got != jobs[g].want[i] {
+					w.Violate(idx, "isolation", "isolation|depends-on-earlier-vms", fmt.Sprintf("cfg=%s program#%d=%q (history %q)", jobs[g].cfg, i, p, jobs[g].progs[:i]), fmt.Sprintf("the same seeded VM run sequentially gives\n%s\nafter other VMs ran, but\n%s\nwhen it ran before them", trunc(got, 600), trunc(jobs[g].want[i], 600)), nil)
+					break
+				}
 			}
 		}
 	}
 	var yctr uint64
 	seed := r.U64()
-	yf := func(point string) {
-		n := atomic.AddUint64(&yctr, 1)
-		switch ((n * 0x9E3779B97F4A7C15) ^ seed) >> 61 {
-		case 0, 1:
-			runtime.Gosched()
-		case 2:
-			time.Sleep(10 * time.Microsecond)
+	runConcurrent := func() {
+		yf := func(point string) {
+			n := atomic.AddUint64(&yctr, 1)
+			switch ((n * 0x9E3779B97F4A7C15) ^ seed) >> 61 {
+			case 0, 1:
+				runtime.Gosched()
+			case 2:
+				time.Sleep(10 * time.Microsecond)
+			}
 		}
-	}
-	hook.YieldFn.Store(&yf)
-	defer hook.YieldFn.Store(nil)
-	w.Begin(idx, fmt.Sprintf("concurrent: %d goroutines × %d programs, own VM each (even = seeded, odd = unseeded), languages by index mod 3", G, per))
-	type diff struct {
-		g, i int
-		got  string
-	}
-	var mu sync.Mutex
-	var diffs []diff
-	var wg sync.WaitGroup
-	start := make(chan struct{})
-	for g := range jobs {
-		wg.Add(1)
-		go func(g int) {
-			defer wg.Done()
-			<-start
-			vm := jobs[g].cfg.NewVM()
-			for i, p := range jobs[g].progs {
-				got := c11RunOne(vm, p)
-				seeded := jobs[g].cfg.Seed != 0
-				bad := false
-				if seeded {
-					bad = got != jobs[g].want[i]
-				} else {
-					// unseeded: error-ness of parse failures and their text (language) must match
-					wantErr := len(jobs[g].want[i]) > 3 && jobs[g].want[i][:3] == "ERR"
-					gotErr := len(got) > 3 && got[:3] == "ERR"
-					if len(got) > 5 && got[:5] == "PANIC" {
-						bad = true
-					} else if wantErr && gotErr && isSyntaxMsg(jobs[g].want[i]) {
-						bad = got != jobs[g].want[i]
-					}
+		hook.YieldFn.Store(&yf)
+		defer hook.YieldFn.Store(nil)
+		w.Begin(idx, fmt.Sprintf("concurrent: %d goroutines × %d programs, own VM each (even = seeded, odd = unseeded), languages by index mod 3, cold=%v", G, per, cold))
+		var wg sync.WaitGroup
+		start := make(chan struct{})
+		for g := range jobs {
+			wg.Add(1)
+			go func(g int) {
+				defer wg.Done()
+				<-start
+				vm := jobs[g].cfg.NewVM()
+				out := make([]string, 0, len(jobs[g].progs))
+				for _, p := range jobs[g].progs {
+					out = append(out, c11RunOne(vm, p))
 				}
-				if bad {
-					mu.Lock()
-					diffs = append(diffs, diff{g, i, got})
-					mu.Unlock()
+				gots[g] = out
+			}(g)
+		}
+		close(start)
+		wg.Wait()
+	}
+	if cold {
+		runConcurrent()
+		runBaselines()
+		w.Count("cold_batches_concurrent_first", 1)
+	} else {
+		runBaselines()
+		runConcurrent()
+	}
+	// judge the concurrent observations against the baselines
+	for g := range jobs {
+		for i := range gots[g] {
+			got := gots[g][i]
+			seeded := jobs[g].cfg.Seed != 0
+			bad := false
+			if seeded {
+				bad = got != jobs[g].want[i]
+			} else {
+				wantErr := len(jobs[g].want[i]) > 3 && jobs[g].want[i][:3] == "ERR"
+				gotErr := len(got) > 3 && got[:3] == "ERR"
+				if len(got) > 5 && got[:5] == "PANIC" {
+					bad = true
+				} else if wantErr && gotErr && isSyntaxMsg(jobs[g].want[i]) {
+					bad = got != jobs[g].want[i]
 				}
 			}
-		}(g)
+			if bad {
+				diffs = append(diffs, diff{g, i, got})
+			}
+		}
 	}
-	close(start)
-	wg.Wait()
 	for _, d := range diffs {
 		j := jobs[d.g]
 		w.Violate(idx, "isolation", "isolation|differs-from-isolated-run", fmt.Sprintf("cfg=%s program#%d=%q (history %q)", j.cfg, d.i, j.progs[d.i], j.progs[:d.i]), fmt.Sprintf("under concurrency: %s\nin isolation:      %s", trunc(d.got, 700), trunc(j.want[d.i], 700)), nil)
